@@ -125,7 +125,7 @@ def _gen_system(rng, tier):
         rules.append([rng.choice(CONDS), rng.choice([0, 1, 2, 2, 2, 3])])
     cfg = {"min_obs": min_obs, "window": window, "min_train": rng.choice([1, 2, 10]),
            "cap": rng.choice([1, 2, 1000, 1000]), "stab": rng.choice([1, 2, 3, 100]), "rules": rules,
-           "tol": rng.choice([0.25, 0.5, 0.9, 1.0, 2.0, 2.0, 3.0]), "var_thr": rng.choice([0.5, 0.5, 0.1])}
+           "tol": rng.choice([0.0, 0.25, 0.5, 0.9, 1.0, 2.0, 2.0, 3.0]), "var_thr": rng.choice([0.5, 0.5, 0.1])}
     ops = []
     base = {0: _spec(rng), 1: None}
     cur = {0: base[0], 1: None}
@@ -143,7 +143,7 @@ def _gen_system(rng, tier):
     nseg = rng.randint(2, 6 if tier == "quick" else 10)
     table = [(4, "out_streak"), (2.5, "back"), (2.5, "retrain"), (2.5, "edge"), (1.5, "canary"), (1.5, "flag"),
              (2, "alarm"), (1, "reset"), (2.5, "treg"), (2, "mem"), (1, "clock"), (1.2, "other"), (1, "drift"),
-             (2.5, "tolerated_repeat"), (1.2, "mutate"), (2.5, "recover"), (1.5, "anergic_then")]
+             (2.5, "tolerated_repeat"), (1.2, "mutate"), (2.5, "recover"), (1.5, "anergic_then"), (1.5, "accept_drift")]
     for _ in range(nseg):
         seg = weighted(rng, table)
         g = 0 if (base[1] is None or rng.random() < 0.8) else 1
@@ -174,6 +174,20 @@ def _gen_system(rng, tier):
                 ops.append(["inspect", g])
                 if rng.random() < 0.15:
                     ops.append(["clock", rng.choice([10.0, 3601.0])])
+        elif seg == "accept_drift":
+            # a few unconfirmed anomalies, the operator accepts the drift by retraining, and the next thing that
+            # happens is a *new* deviation (no clean look in between)
+            s1 = _spec(rng, base[g])
+            ops.append(["fill", g, *s1, window])
+            for _ in range(rng.randint(1, 2)):
+                ops.append(["inspect", g])
+            base[g] = s1
+            ops.append(["train", g])
+            s2 = _spec(rng, s1)
+            cur[g] = s2
+            ops.append(["fill", g, *s2, rng.choice([1, window])])
+            for _ in range(rng.randint(1, 2)):
+                ops.append(["inspect", g])
         elif seg == "anergic_then":
             # drive the watcher to anergy, then use every other public handle on it, then give it both signals
             n = rng.choice([2, 5, 5])
